@@ -355,6 +355,40 @@ def bind_driver(judge, stats, mon, g, table, text, gk, R, ren, kind, seen,
                 stats["driver_disagrees_with_table"] += 1
 
 
+def shared_grammar(judge, stats, g, text, gk, kind):
+    """Parser builds the LAYOUT table and then the main table on the same
+    Grammar object: a table must not depend on tables built before it
+    (g already carries the LAYOUT table built by check_table)"""
+    from parglare.tables.persist import table_to_serializable
+    from pgmc.findings import digest
+    its = LR_1 if kind == "LALR" else LR_0
+
+    def ser(gr, start):
+        with drive.quiet():
+            t = create_table(gr, its, start_production=start,
+                             prefer_shifts=False, prefer_shifts_over_empty=False)
+        return digest(table_to_serializable(t))
+    try:
+        lay = g.get_production_id("LAYOUT")
+        got = {"main after layout": ser(g, 1), "layout again": ser(g, lay)}
+        g2 = grammar_from_string(text)
+        want = {"main after layout": ser(g2, 1)}
+        g3 = grammar_from_string(text)
+        want["layout again"] = ser(g3, lay)
+        # and in the other order
+        got["layout after main"] = ser(g2, lay)
+        want["layout after main"] = want["layout again"]
+    except BudgetExceeded:
+        return
+    stats["shared_grammar_tables"] += 3
+    bad = sorted(k for k in got if got[k] != want[k])
+    if bad:
+        judge.deviation(None, f"{kind}/shared", gk, "",
+                        "a table depends on the tables built before it on the "
+                        "same Grammar object", {"differs": bad},
+                        {"grammar": text, "tables": kind})
+
+
 def run_unit(u):
     sp = SPACES[u["space"]]
     nts = sp["nts"]
@@ -389,6 +423,7 @@ def run_unit(u):
                             text, gk, R, ren, kind, seen, earley)
             elif seen is not None:
                 seen = seen[0]
+                shared_grammar(judge, stats, g, text, gk, kind)
             if seen is not None and len(seen) > 1:
                 stats["nontrivial"] += 1
         if not samples:
